@@ -75,6 +75,18 @@ func c08Cases(c *core.Ctx) []c08Case {
 				c08Case{Depth: 2, Defect: "missing-link-in-one-twin", Special: "twin-sublayouts", Level: 1, Step: "final", Flavour: "summary", DSSE: dsse, RunDir: runDir},
 				c08Case{Depth: 3, Defect: "missing-link-in-one-twin", Special: "twin-sublayouts", Level: 1, Step: "prep", Flavour: "summary", DSSE: dsse, RunDir: runDir},
 			)
+			for _, depth := range []int{2, 3} {
+				out = append(out,
+					// the innermost layout defines the key id of the ROOT's prep functionary with other key material
+					// (a layout is free to do so): its own evidence counts, the root functionary's does not
+					c08Case{Depth: depth, Defect: "none", Special: "redefined-key-id", Flavour: "summary", DSSE: dsse, RunDir: runDir, wantOK: true},
+					c08Case{Depth: depth, Defect: "link-signed-with-the-material-the-root-layout-gives-that-key-id", Level: depth - 1, Step: "prep", Special: "redefined-key-id", Flavour: "summary", DSSE: dsse, RunDir: runDir},
+				)
+				// a sublayout whose summary reports its product under another digest algorithm than the parent's evidence
+				for level := 1; level < depth; level++ {
+					out = append(out, c08Case{Depth: depth, Defect: "summary-digest-algorithm-differs-from-parent-evidence", Level: level, Flavour: "summary", DSSE: dsse, RunDir: runDir})
+				}
+			}
 		}
 	}
 	return out
@@ -157,7 +169,18 @@ func runC08(c *core.Ctx) {
 			case "tampered-link":
 				d.TamperLink[k.Step] = true
 			}
+			if k.Defect == "summary-digest-algorithm-differs-from-parent-evidence" {
+				d.OutAlg = "sha512"
+			}
 			switch k.Special {
+			case "redefined-key-id":
+				deep := levels[k.Depth-1]
+				alias := gen.ByKind(pool, "rsa3072")[0]
+				alias.Pub.KeyID, alias.Priv.KeyID = levels[0].Prep.Pub.KeyID, levels[0].Prep.Pub.KeyID
+				deep.Prep = alias
+				if k.Defect != "none" {
+					deep.LinkSigner["prep"] = levels[0].Prep
+				}
 			case "plain+sublayout":
 				levels[0].ExtraPlain, levels[0].ExtraKey = true, extraFn
 			case "surplus-sublayout":
@@ -252,6 +275,9 @@ func runC08(c *core.Ctx) {
 						}
 						if k.Defect == "inspection-rule-violation" && l == k.Level {
 							continue // that inspection's command runs, it is its rule that fails afterwards
+						}
+						if k.Defect == "summary-digest-algorithm-differs-from-parent-evidence" && l == k.Level {
+							continue // that sublayout is sound in itself; it is its parent's rule about the summary that fails
 						}
 						if contains(markers, fmt.Sprintf("L%d", l)) && !(k.Defect == "failing-inspection" && l > k.Level) {
 							c.Violation(fmt.Sprintf("inspection of level %d ran although the nesting was rejected at level %d (%s)", l, k.Level, label), id, detail)
